@@ -834,6 +834,46 @@ pub fn pick_inputs(
     ))
 }
 
+/// Run the real compaction scoring (`Version::finalize`) and `VersionSet::pick_compaction` on a
+/// synthetic version: `levels[l]` are the files of level `l` in the order the version keeps them,
+/// `pointers[l]` the compaction pointer of level `l`. Returns (level with the best score, whether
+/// the score asks for a size compaction, what `pick_compaction` selected: level, numbers of the
+/// level files, numbers of the parent files).
+#[allow(clippy::type_complexity)]
+pub fn pick_compaction_probe(
+    options: &crate::DbOptions,
+    levels: &[Vec<FileDump>],
+    pointers: &[Option<IKey>],
+) -> Result<(usize, bool, Option<(usize, Vec<u64>, Vec<u64>)>), String> {
+    use crate::versioning::file_metadata::FileMetadata;
+    let table_cache = Arc::new(crate::table_cache::TableCache::new(options.clone(), 10));
+    let mut files = vec![];
+    for level_files in levels.iter().take(crate::config::MAX_NUM_LEVELS) {
+        let mut metadata = vec![];
+        for file in level_files {
+            let mut meta = FileMetadata::new(file.number);
+            meta.set_file_size(file.size);
+            meta.set_smallest_key(Some(to_internal_key(&file.smallest)?));
+            meta.set_largest_key(Some(to_internal_key(&file.largest)?));
+            metadata.push(Arc::new(meta));
+        }
+        files.push(metadata);
+    }
+    let mut pointer_keys = vec![];
+    for pointer in pointers {
+        pointer_keys.push(match pointer {
+            Some(key) => Some(to_internal_key(key)?),
+            None => None,
+        });
+    }
+    Ok(crate::versioning::version_set::VersionSet::verif_pick_probe(
+        options,
+        &table_cache,
+        files,
+        pointer_keys,
+    ))
+}
+
 /// Apply a sequence of version edits to a base version with the real `VersionBuilder` (one
 /// builder for all edits, as recovery does). An edit is `(deleted (level, number), added (level,
 /// file))`. Returns the file numbers per level of the resulting version in its own order, or the
